@@ -32,3 +32,12 @@ Print Assumptions C05_clamp_mono.
 Theorem C05_station_within_max : forall p cur mx mn vm, cur <= mx -> cur + @clamp_power R RNum p cur mx mn vm <= mx.
 Proof. exact clamp_within_max. Qed.
 Print Assumptions C05_station_within_max.
+
+(* the clamp_power model used above IS the translated source of util.clamp_power (generated/Src.v is regenerated
+   from /repo on every run; a change of the function's text breaks this obligation) *)
+From SV Require Import Kernel Tie.
+From SVG Require Import Src.
+Theorem C05_clamp_power_is_source : forall power cs_cur cs_max cs_min veh_min : R,
+  @clamp_power_src R RNum power cs_cur cs_max cs_min veh_min = @clamp_power R RNum power cs_cur cs_max cs_min veh_min.
+Proof. intros. apply clamp_power_is_source. Qed.
+Print Assumptions C05_clamp_power_is_source.
